@@ -14,7 +14,7 @@ from .c14 import tuple_shape, random_shape
 
 def make_event(case):
     s = tuple_shape(case["shape"])
-    root = shapes.build_expr(s) if case["cls"] == "expr" else shapes.build_btn(s)
+    root = shapes.build(s, case["cls"])
     objs = project.ObjTable()
     project.absorb(objs, [root])
     h = project.snapshot(objs, payload=False)
@@ -36,14 +36,17 @@ def domain(ctx):
     for s in shapes.shapes_upto(n):
         for i in range(1, shapes.size(s) + 1):
             cases.append({"shape": s, "node": i, "cls": "btn"})
-    for s in shapes.shapes_upto(5):
+    for s in shapes.shapes_upto(5 if ctx.quick else 6):
         for i in range(1, shapes.size(s) + 1):
             cases.append({"shape": s, "node": i, "cls": "expr"})
+            # nothing but object identity distinguishes the nodes (equal ids, equal constants, equal kinds)
+            cases.append({"shape": s, "node": i, "cls": "uniform"})
+            cases.append({"shape": s, "node": i, "cls": "btn_sameid"})
     rng = random.Random(ctx.seed)
     for _ in range(300 if ctx.quick else 5000):
         m = rng.randint(n + 1, 16)
-        cases.append({"shape": random_shape(rng, m), "node": rng.randint(1, m), "cls": rng.choice(["btn", "expr"])})
-    return cases, "every node of all %d shapes with <= %d nodes (plain nodes), of all shapes <= 5 nodes (expression nodes), + seeded random shapes up to 16 nodes" % (len(shapes.shapes_upto(n)), n)
+        cases.append({"shape": random_shape(rng, m), "node": rng.randint(1, m), "cls": rng.choice(["btn", "expr", "uniform", "btn_sameid"])})
+    return cases, "every node of all %d shapes with <= %d nodes (plain nodes), of all shapes <= 5 nodes (expression nodes; nodes with equal ids / equal constants / equal kinds, distinguishable by identity only), + seeded random shapes up to 16 nodes" % (len(shapes.shapes_upto(n)), n)
 
 
 def run(ctx, cases=None):
